@@ -71,6 +71,10 @@ def gen_world_files(rng):
         '',
     ]
     files['main.py'] = '\n'.join(main)
+    # some files lack the final newline (must be preserved byte for byte by apply())
+    for p in sorted(files):
+        if rng.random() < 0.3:
+            files[p] = files[p].rstrip('\n')
     return files
 
 
@@ -123,6 +127,7 @@ def gen_case(seed, tier, i):
         plan.append({'ref': list(r[:4]) + [r[4]], 'new': 'nn_%d' % rng.randint(1, 99),
                      'apply': rng.random() < 0.65, 'inspect': rng.randint(0, 2),
                      'unsaved': rng.random() < 0.25, 'from_disk': rng.random() < 0.5,
+                     'order': rng.choice(['code_first', 'diff_first', 'diff_first']),
                      'back': rng.random() < 0.3,
                      'between': rng.choice(['none', 'none', 'gc', 'advance', 'host_restart', 'query'])})
     knobs = {'fast_parser': rng.random() < 0.8, 'cached_size_trigger': rng.choice([2, 600])}
@@ -304,8 +309,9 @@ def check_diff(desc, originals):
         old = originals.get(frm)
         if old is None:
             continue
-        if not old.endswith('\n') or not changed[frm].endswith('\n'):
-            continue    # get_diff documents that it appends a newline; only newline-terminated sources are judged
+        # get_diff documents that it appends a final newline before diffing
+        new_n = changed[frm] if changed[frm].endswith('\n') or not changed[frm] else changed[frm] + '\n'
+        old = old if old.endswith('\n') or not old else old + '\n'
         if any(None in h[4] for h in hunks):
             probs.append(['phantom_eof_line', {'file': frm}])
         try:
@@ -313,7 +319,7 @@ def check_diff(desc, originals):
         except ValueError as e:
             probs.append(['diff_does_not_apply', {'file': frm, 'why': str(e)}])
             continue
-        if got != changed[frm]:
+        if got != new_n:
             probs.append(['diff_result_differs_from_new_code', {'file': frm}])
     for p, code in changed.items():
         if p not in seen and originals.get(p) is not None and originals[p] != code:
@@ -346,6 +352,7 @@ class C07(base.Engine):
     }
 
     def execute(self, case):
+        driver.begin_case(case)
         """adaptive: each plan step is turned into ops using the model's current
         texts; the whole history still runs in ONE long-lived subject per host
         segment (ops are appended and the subject re-run from `start`)"""
@@ -374,7 +381,8 @@ class C07(base.Engine):
                 sid = 's%d' % sid_n
                 code = None if step['from_disk'] else text
                 if step['unsaved']:
-                    code = text + '# unsaved edit %d\n' % sid_n
+                    code = text + ('' if text.endswith('\n') else '\n') + '# unsaved edit %d' % sid_n + \
+                        ('\n' if text.endswith('\n') else '')
                 script_text = code if code is not None else text
                 line, col = find(script_text, needle)
                 args = {'l': line, 'c': col + off, 'new': step['new']}
@@ -383,9 +391,11 @@ class C07(base.Engine):
                     args['ul'] = line
                     args['uc'] = col + extra['len']
                 seg = [{'op': 'script', 'sid': sid, 'code': code, 'path': path, 'project': {'path': '.'}},
-                       {'op': 'refactor', 'sid': sid, 'rid': 'r', 'kind': kind, 'args': args}]
+                       {'op': 'refactor', 'sid': sid, 'rid': 'r', 'kind': kind, 'args': args,
+                        'order': step.get('order', 'code_first')}]
                 for _ in range(step['inspect']):
-                    seg.append({'op': 'refactor_inspect', 'sid': sid, 'rid': 'r'})
+                    seg.append({'op': 'refactor_inspect', 'sid': sid, 'rid': 'r',
+                                'order': step.get('order', 'code_first')})
                 if step['apply']:
                     # stay in the monotone timestamp regime (C09's listed findings are not C07's business):
                     # the files apply() writes get a stamp strictly later than anything parsed before
@@ -430,6 +440,8 @@ class C07(base.Engine):
                                 stats['multi_file'] += 1
                             originals = dict(model.files)
                             originals[path] = script_text
+                            if res.get('diff_again') != res.get('diff'):
+                                problems.append(('get_diff_not_repeatable', {'op': ev['i'], 'kind': kind, 'args': args}))
                             for pr in check_diff(res, originals):
                                 problems.append(('I3:' + pr[0], {'op': ev['i'], 'kind': kind, 'args': args, 'why': pr[1]}))
                         else:
